@@ -92,7 +92,7 @@ type env struct {
 	cur     *call // fort: the call whose DoAsync is being started (backoffProvider has no argument)
 	bo      []time.Duration
 	running int // component functions entered and not returned
-	asyncs  int // fort: DoAsync started and not returned
+	asyncs  int // DoAsync (fort) / edge functions (wire) started and not returned
 	shut    int // 0 not called, 1 called, 2 returned
 	w       wires
 	r       *retry.Retryer[core.Duty]
@@ -191,12 +191,13 @@ func (e *env) attempt(edge string, duty core.Duty, ctx context.Context) error {
 		dl = int(d.Sub(e.genesis) / time.Microsecond)
 	}
 	var i int
-	ev := drv.Step{"ev": "AStart", "c": c.id, "err": ctxState(ctx), "dl": dl}
+	ev := drv.Step{"ev": "AStart", "c": c.id, "dl": dl}
 	e.log(ev, func() {
 		i = c.n
 		c.n++
 		e.running++
 		ev["i"] = i
+		ev["err"] = ctxState(ctx) // read under the log's mutex: the log is a linearisation of what the goroutines saw
 	})
 	if i == 0 {
 		go e.watch(ctx, c)
@@ -239,7 +240,8 @@ func (e *env) attempt(edge string, duty core.Duty, ctx context.Context) error {
 func (e *env) watch(ctx context.Context, c *call) {
 	select {
 	case <-ctx.Done():
-		e.log(drv.Step{"ev": "CtxDone", "c": c.id, "err": ctxState(ctx)}, nil)
+		ev := drv.Step{"ev": "CtxDone", "c": c.id}
+		e.log(ev, func() { ev["err"] = ctxState(ctx) })
 	case <-e.quit:
 	}
 }
@@ -511,12 +513,10 @@ func runOne(t *testing.T, tr *drv.Tracer, sid int, sched []drv.Step) (hung bool)
 			e.doShutdown(drv.Num(st["to"]))
 		case "ParentCancel":
 			c := e.calls[drv.Num(st["c"])]
-			e.log(drv.Step{"ev": "ParentCancel", "c": c.id}, nil)
-			c.cancel()
+			e.log(drv.Step{"ev": "ParentCancel", "c": c.id}, c.cancel) // under the log's mutex: ordered against every recorded ctx.Err()
 		case "Release":
 			c := e.calls[drv.Num(st["c"])]
-			e.log(drv.Step{"ev": "Release", "c": c.id}, nil)
-			close(c.gate)
+			e.log(drv.Step{"ev": "Release", "c": c.id}, func() { close(c.gate) })
 		default:
 			t.Fatalf("unknown step %v", st)
 		}
@@ -585,9 +585,11 @@ func (e *env) doGo(mode string, st drv.Step) {
 
 		return
 	}
-	e.log(ev, nil)
-	err := e.invoke(c)
-	e.log(drv.Step{"ev": "EdgeRet", "c": c.id, "nil": err == nil}, nil)
+	e.log(ev, func() { e.asyncs++ })
+	go func() { // an edge that is not wrapped blocks its caller: the schedule goes on meanwhile
+		err := e.invoke(c)
+		e.log(drv.Step{"ev": "EdgeRet", "c": c.id, "nil": err == nil}, func() { e.asyncs-- })
+	}()
 }
 
 func (e *env) doShutdown(to int) {
